@@ -189,6 +189,15 @@ def check_complete(case, ctx: Ctx):
     if not inside:
         ctx.label("outside_by_construction")
         return
+    if d % clk:
+        # a waveform that cannot be re-sampled at the lengthened duration (interpolation
+        # times collapsing onto one sample) cannot be "only lengthened": unspecified
+        try:
+            pulse.amplitude.change_duration(newd)
+            pulse.detuning.change_duration(newd)
+        except Exception:  # noqa: BLE001
+            ctx.label("lengthening_impossible_for_this_waveform")
+            return
     if d % clk and chobj.min_avg_amp:
         # lengthening keeps the area of a Blackman/Kaiser/interpolated waveform: its
         # average can fall below min_avg_amp - the two halves of the statement conflict
@@ -317,13 +326,13 @@ def check_msd(case, ctx: Ctx):
 
 CLAUSES = [
     Clause("sound", check_sound, gen=lambda t: gen.programs(profile(t)),
-           budget={"quick": (12, 150), "thorough": (16, 6000)},
+           budget={"quick": (12, 150), "thorough": (16, 3000)},
            doc="limits of every newly scheduled pulse after each successful call"),
     Clause("complete", check_complete, gen=lambda t: inside_cases(),
-           budget={"quick": (4, 400), "thorough": (16, 10000)},
+           budget={"quick": (4, 400), "thorough": (16, 5000)},
            doc="a pulse inside every limit is accepted, unchanged or only lengthened"),
     Clause("max_seq_boundary", check_msd, gen=lambda t: msd_cases(t),
-           budget={"quick": (8, 100), "thorough": (16, 4000)},
+           budget={"quick": (8, 100), "thorough": (16, 2500)},
            doc="max_sequence_duration placed 0..17 ns below the end of a chosen call (two-pass construction)"),
     Clause("durations", check_durations, enum=enum_duration_boxes,
            budget={"quick": (8, 0), "thorough": (16, 0)}, exhaustive=True,
